@@ -348,7 +348,8 @@ struct decode_traits<T,
 
     static void reserve_storage(std::true_type, T& v, std::size_t new_cap)
     {
-        v.reserve(new_cap);
+        // new_cap is the length the input claims; reserve no more than a bounded amount ahead of the elements actually read
+        v.reserve(new_cap < 4096 ? new_cap : 4096);
     }
 
     static void reserve_storage(std::false_type, T&, std::size_t)
@@ -413,7 +414,8 @@ struct decode_traits<T,
 
     static void reserve_storage(std::true_type, T& v, std::size_t new_cap)
     {
-        v.reserve(new_cap);
+        // new_cap is the length the input claims; reserve no more than a bounded amount ahead of the elements actually read
+        v.reserve(new_cap < 4096 ? new_cap : 4096);
     }
 
     static void reserve_storage(std::false_type, T&, std::size_t)
@@ -471,7 +473,8 @@ struct decode_traits<T,
 
     static void reserve_storage(std::true_type, T& v, std::size_t new_cap)
     {
-        v.reserve(new_cap);
+        // new_cap is the length the input claims; reserve no more than a bounded amount ahead of the elements actually read
+        v.reserve(new_cap < 4096 ? new_cap : 4096);
     }
 
     static void reserve_storage(std::false_type, T&, std::size_t)
@@ -540,7 +543,8 @@ struct decode_traits<T,
 
     static void reserve_storage(std::true_type, T& v, std::size_t new_cap)
     {
-        v.reserve(new_cap);
+        // new_cap is the length the input claims; reserve no more than a bounded amount ahead of the elements actually read
+        v.reserve(new_cap < 4096 ? new_cap : 4096);
     }
 
     static void reserve_storage(std::false_type, T&, std::size_t)
@@ -654,7 +658,8 @@ struct decode_traits<T,
 
     static void reserve_storage(std::true_type, T& v, std::size_t new_cap)
     {
-        v.reserve(new_cap);
+        // new_cap is the length the input claims; reserve no more than a bounded amount ahead of the elements actually read
+        v.reserve(new_cap < 4096 ? new_cap : 4096);
     }
 
     static void reserve_storage(std::false_type, T&, std::size_t)
